@@ -21,6 +21,7 @@ package cache
 //
 //@ func (dirCache).markDir
 //@   requires cache != nil && cache.added != nil
+//@   modifies cache.added
 //@   ensures marked [C14]: in(path, cache.added) && in(path + "=", cache.added)
 //@   ensures never_unmarked [C14]: forall k string :: old(in(k, cache.added)) ==> in(k, cache.added)
 //
@@ -43,3 +44,67 @@ package cache
 //@   callsite os.Rename tmpname [C14]: arg_newpath == arg_oldpath + "="
 //@   callsite fs.RemoveAll renamed_only [C14]: exists k int :: 0 <= k && k < len(entries) && arg_path == entries[k].Path + "=" && \
 //@      !in(entries[k].Path, cache.added)
+
+// ---------------------------------------------------------------------------------------------
+// Directory cache: atomic store, faithful retrieve (C12)
+//
+// An entry is assembled under a temporary name (<key>= ...) and published by ONE rename; the final name is
+// touched only by the initial removal and that rename. So at every point between file-system calls (every
+// crash point at that granularity) the final name is absent or complete.
+//
+//@ func (dirCache).getFullPath
+//@   requires cache != nil && target != nil
+//@   modifies nothing
+//@   ensures shape [C12 C02]: result == filepath.Join(cache.Dir, target.Label.PackageName, target.Label.Name, base64.URLEncoding.EncodeToString(key)) + \
+//@      ite(cache.Compress, replaceAll(extra, "/", "_"), "") + suffix + cache.Suffix
+//@ lemma tmp_name_differs [C12]: forall x string, e string, s string :: x + e + "=" + s != x + e + "" + s
+//@ assume func (dirCache).getPath
+//@   pure
+//@ assume func (dirCache).storeCompressed
+//@   modifies nothing
+//
+//@ func (dirCache).Store
+//@   requires cache != nil && cache.added != nil && target != nil
+//@   opt nopanic=off
+//@   callsite fs.RemoveAll only_the_old_entry [C12]: arg_path == cache.getPath(target, key, "")
+//@   callsite (dirCache).storeFiles assembled_under_tmp_name [C12]: arg_tmpDir == cache.getFullPath(target, key, "", "=") && \
+//@      arg_cacheDir == cache.getPath(target, key, "")
+//@   callsite os.Rename publish_by_rename [C12]: arg_oldpath == cache.getFullPath(target, key, "", "=") && \
+//@      arg_newpath == cache.getPath(target, key, "") && called("(dirCache).storeFiles")
+//
+//@ func (dirCache).storeFiles
+//@   requires cache != nil && cache.added != nil && target != nil
+//@   modifies cache.added
+//@   opt nopanic=off
+//@   callsite (dirCache).storeFile into_tmp [C12]: arg_cacheDir == tmpDir
+//@   callsite (dirCache).storeCompressed into_tmp [C12]: arg_filename == tmpDir
+//
+//@ func (dirCache).storeFile
+//@   requires cache != nil && target != nil
+//@   modifies nothing
+//@   opt nopanic=off
+//@   callsite (dirCache).ensureStoreReady under_the_entry [C12]: arg_filename == filepath.Join(cacheDir, out)
+//@   callsite fs.RecursiveLink under_the_entry [C12]: arg_to == filepath.Join(cacheDir, out) && \
+//@      arg_from == filepath.Join(core.RepoRoot, target.OutDir(), out)
+//
+// A leftover of an earlier, interrupted store of the same name is removed WHOLE before it is reused.
+//@ func (dirCache).ensureStoreReady
+//@   opt nopanic=off
+//@   modifies nothing
+//@   callsite fs.RemoveAll the_stale_entry [C12]: arg_path == filename
+//@   returnsite stale_entry_removed [C12]: err != nil || called("fs.RemoveAll")
+//
+// Names inside a compressed entry are the output's path relative to the output directory, verbatim (only
+// the separating slash is stripped).
+//@ func (dirCache).tarHeader
+//@   opt nopanic=off
+//@   opt panics=allowed
+//@   callsite strings.TrimLeft only_the_separator [C12]: arg_cutset == "/"
+//@   callsite strings.TrimPrefix relative_to_prefix [C12]: arg_s == file && arg_prefix == prefix
+//
+// A key that was never stored is a miss.
+//@ func (dirCache).retrieveFiles
+//@   requires cache != nil && cache.added != nil
+//@   opt nopanic=off
+//@   ensures never_stored_is_a_miss [C12]: !old(core.PathExists(cacheDir)) ==> !result0 && result1 == nil
+//@   callsite fs.RecursiveLink from_the_entry [C12]: arg_from == filepath.Join(cacheDir, out)
